@@ -8,7 +8,7 @@ LANES="${1:-4}"; shift
 MUTS="$@"
 [ -z "$MUTS" ] && MUTS=$(ls /verif/seeded | grep -E '^C[0-9]+-[a-z]$')
 OUT=${MATRIX_OUT:-/verif/seeded/matrix}; mkdir -p "$OUT"
-BASE=/tmp/mx; rm -rf "$BASE"; mkdir -p "$BASE"; git -C /repo worktree prune
+BASE=${MATRIX_BASE:-/tmp/mx}; rm -rf "$BASE"; mkdir -p "$BASE"; git -C /repo worktree prune
 IDS=$(python3 -c "import json;print(' '.join(c['property_id'] for c in json.load(open('/verif/MANIFEST.json'))['checks']))")
 lane() {
   L=$1; shift
@@ -22,6 +22,7 @@ lane() {
     : > $OUT/$m.txt.tmp
     RUNIDS="$IDS"
     [ -n "${OWN_ONLY:-}" ] && RUNIDS="${m%-*}"
+    [ -n "${CHECK_IDS:-}" ] && RUNIDS="$CHECK_IDS"
     for id in $RUNIDS; do
       o=$(cd $D/verif && REPO_DIR=$D/repo ./check.sh $id quick 2>&1); rc=$?
       sigs=$(echo "$o" | grep -E "^  sig=" | sed 's/^  sig=//' | sort -u | head -4 | tr '\n' ';')
